@@ -238,8 +238,10 @@ static void fill_options(reproc::options &o, int only, std::vector<std::pair<std
   }
   if (on(F_DEADLINE)) o.deadline = reproc::milliseconds(rnd() % 3 == 0 ? INT_MAX : rint(1, 1000000));
   if (on(F_INPUT)) {
-    inputstore.resize(static_cast<size_t>(rint(0, 50)));
-    o.input = reproc::input(inputstore.data(), inputstore.size());
+    // a non-null pointer with size 0 is a meaningful value ("empty input: close stdin at once")
+    inputstore.resize(64);
+    size_t n = rnd() % 4 == 0 ? 0 : static_cast<size_t>(rint(1, 50));
+    o.input = reproc::input(inputstore.data(), n);
   }
   if (on(F_NB)) o.nonblocking = true;
   o.timeout = reproc::milliseconds(rint(0, 50));
